@@ -141,6 +141,12 @@ func runC02(c *caseWriter) (string, bool, map[string]int) {
 	cc(`<script defer</script  >{{.}}<i>t</i>`, c02Str(mkA))                                                                                           // D44
 	js(`<video poster="{{.}}"></video>`, c02Str("javascript:alert(1)"))                                                                                // D34
 	js(`<blockquote cite="{{.}}"></blockquote>`, c02Str("javascript:alert(1)"))                                                                        // D34
+	cc(`<a {{if .C}}onclick{{else}}title{{end}}{{if .D}}{{end}}="{{.X}}">`, c02Map("C", "1", "D", "", "X", mkA))                                      // D46 (fixed)
+	cc(`{{if .C}}<script{{else}}<div{{end}}{{if .D}} {{end}}>{{.X}}</script>`, c02Map("C", "1", "D", "", "X", mkA))                                    // D46 (fixed)
+	js(`<a href="{{if .C}}{{else}}java{{end}}{{.X}}">x</a>`, c02Map("C", "", "D", "", "X", "script:alert(1)"))                                         // D47 (fixed)
+	cc(`<script src="{{if .C}}{{else}}https://{{end}}{{.X}}"></script>`, c02Map("C", "", "D", "", "X", mkA+".org/x.js"))                               // D47 (fixed)
+	cc(`<a data-x{{/* c */}}/onclick="{{.X}}">`, c02Map("N", "", "X", mkA))                                                                            // D48
+	cc(`<iframe src{{/* c */}}doc="{{.X}}"></iframe>`, c02Map("N", "", "X", mkA))                                                                      // D48
 
 	// ------------------------------------------------------------ (1) directed-search seeds first
 	for _, s := range extraSeeds {
@@ -519,6 +525,79 @@ func runC02(c *caseWriter) (string, bool, map[string]int) {
 		js(`<img srcset="{{.A}} 1x, {{.B}} 2x">`, c02Map("A", d, "B", "/b.png"))
 	}
 
+	// ------------------------------------------------------------ (6b) names split over several text nodes, conditional names followed by
+	// further conditionals, conditional static URL prefixes (the else side included)
+	seps := []string{`{{/* c */}}`, `{{if .N}}{{end}}`, `{{with .N}}{{end}}`, `{{range .N}}{{end}}`, `{{define "e"}}{{end}}{{template "e"}}`, `{{if .N}}{{else}}{{end}}`}
+	splitNames := [][2]string{{"data-x", "/onclick"}, {"data-x", "onclick"}, {"src", "doc"}, {"title", "/"}, {"title", "/onmouseover"}, {"alt", "/style"}, {"data-", "x"}, {"on", "click"}, {"hre", "f"}, {"sr", "c"},
+		{"sty", "le"}, {"srcdo", "c"}, {"id", "/href"}, {"class", "/srcdoc"}, {"title", "/src"}, {"data-a", "/data"}, {"o", "nclick"}, {"data-x", " onclick"}, {"title", "\tstyle"}, {"x", ":href"}, {"xlink", ":href"}, {"form", "action"}, {"dir", "/formaction"}}
+	splitElems := []string{"a", "div", "iframe", "script", "img", "object", "button"}
+	for si, sp := range seps {
+		for ni, nm := range splitNames {
+			for ei, e := range splitElems {
+				if !thorough && (si+ni+ei)%3 != 0 && !(si == 0 && ei < 3) {
+					continue
+				}
+				t := "<" + e + " " + nm[0] + sp + nm[1] + `="{{.X}}">`
+				cc(t, c02Map("N", "", "X", mkA))
+				cc(t, c02Map("N", "", "X", "//"+mkA+"/x"))
+				js(t, c02Map("N", "", "X", "javascript:alert(1)"))
+				cc("<"+e+" "+nm[0]+sp+nm[1]+`='{{.X}}'>`, c02Map("N", "", "X", mkA))
+				cc("<"+e+" "+nm[0]+sp+nm[1]+`={{.X}}>`, c02Map("N", "", "X", mkA))
+			}
+		}
+	}
+	condNames := []string{
+		`<a {{if .C}}title{{end}}{{if .D}}{{end}}="{{.X}}">`,
+		`<a {{if .C}}title{{else}}onclick{{end}}="{{.X}}">`,
+		`<a {{if .C}}title{{else}}onclick{{end}}{{if .D}}{{end}}="{{.X}}">`,
+		`<a {{if .C}}onclick{{else}}title{{end}}{{if .D}}{{end}}="{{.X}}">`,
+		`<a {{if .C}}title{{else}}href{{end}}{{if .D}}{{end}}="{{.X}}">`,
+		`<a {{if .C}}title{{else}}style{{end}}{{with .D}}{{end}}="{{.X}}">`,
+		`<iframe {{if .C}}title{{else}}srcdoc{{end}}{{if .D}}{{else}}{{end}}="{{.X}}"></iframe>`,
+		`<a {{if .C}}title{{else}}onclick{{end}}{{if .D}} {{end}}="{{.X}}">`,
+		`<a {{if .C}}title{{else}}{{if .D}}onclick{{else}}alt{{end}}{{end}}="{{.X}}">`,
+		`<a {{if .C}}{{if .D}}onclick{{else}}alt{{end}}{{else}}title{{end}}="{{.X}}">`,
+		`{{if .C}}<script{{else}}<div{{end}}{{if .D}} {{end}}>{{.X}}</script>`,
+		`{{if .C}}<div{{else}}<script{{end}}{{if .D}} {{end}}>{{.X}}</script>`,
+		`{{if .C}}<style{{else}}<div{{end}}{{if .D}} {{end}}>{{.X}}</style>`,
+		`{{if .C}}<script{{else}}<div{{end}}>{{.X}}</script>`,
+		`{{if .C}}<script {{else}}<img {{end}}src="{{.X}}">`,
+		`{{if .C}}<script {{else}}<img {{end}}{{if .D}}{{end}}src="{{.X}}">`,
+		`{{if .C}}{{if .D}}<script {{else}}<img {{end}}{{else}}<img {{end}}src="{{.X}}">`,
+		`{{if .C}}<img {{else}}{{if .D}}<script {{else}}<img {{end}}{{end}}src="{{.X}}">`,
+		`{{if .C}}<img {{else}}{{if .D}}<img {{else}}<script {{end}}{{end}}src="{{.X}}">`,
+		`{{if .C}}{{if .D}}<img {{else}}<iframe {{end}}{{else}}<img {{end}}src="{{.X}}">`,
+		`{{if .C}}<a {{else}}<base {{end}}{{if .D}}{{end}}href="{{.X}}">`,
+		`{{if .C}}<a {{else}}<link rel="stylesheet" {{end}}{{if .D}}{{end}}href="{{.X}}">`,
+		`{{with .C}}<script{{else}}<div{{end}}{{with .D}} {{end}}>{{$.X}}</script>`,
+		`{{range .L}}<script{{else}}<div{{end}}{{if .D}} {{end}}>{{.X}}</script>`,
+		`<div {{if .C}}title="a"{{else}}onclick="a"{{end}} {{if .D}}id{{else}}lang{{end}}="{{.X}}">`,
+	}
+	for _, t := range condNames {
+		for _, cv := range []string{"", "1"} {
+			for _, dv := range []string{"", "1"} {
+				cc(t, c02Map("C", cv, "D", dv, "X", mkA))
+				cc(t, c02Map("C", cv, "D", dv, "X", "//"+mkA+"/x.js"))
+				js(t, c02Map("C", cv, "D", dv, "X", "javascript:alert(1)"))
+			}
+		}
+	}
+	condPrefixes := []string{`{{if .C}}{{else}}java{{end}}`, `{{if .C}}java{{end}}`, `{{if .C}}{{else}}javascript:{{end}}`, `{{if .C}}javascript:{{end}}`, `{{if .C}}/p/{{else}}https://h.example/{{end}}`, `{{if .C}}{{else}}//{{end}}`,
+		`{{if .C}}{{else}}https://{{end}}`, `{{if .C}}https://{{end}}`, `{{with .C}}{{else}}java{{end}}`, `{{range .C}}{{else}}java{{end}}`, `{{if .C}}{{else}}{{if .D}}{{else}}java{{end}}{{end}}`, `{{if .C}}{{else}}j{{end}}{{if .D}}{{else}}ava{{end}}`,
+		`{{if .C}}{{else}}JaVa{{end}}`, `{{if .C}}{{else}}java&#115;{{end}}`, `{{if .C}}{{else}} java{{end}}`, `{{if .C}}{{else}}data:text/html,{{end}}`, `{{if .C}}{{else}}/p?q={{end}}`, `{{if .C}}{{else}}/p/{{end}}`, `{{if .C}}{{else}}x{{end}}`}
+	condSites := []string{`<a href="%s{{.X}}">x</a>`, `<script src="%s{{.X}}"></script>`, `<img srcset="%s{{.X}}">`, `<form action='%s{{.X}}'></form>`, `<iframe src="%s{{.X}}"></iframe>`, `<link rel="stylesheet" href="%s{{.X}}">`, `<a href=%s{{.X}}>x</a>`}
+	for _, site := range condSites {
+		for _, pre := range condPrefixes {
+			t := fmt.Sprintf(site, pre)
+			for _, cv := range []string{"", "1"} {
+				js(t, c02Map("C", cv, "D", "", "X", "script:alert(1)"))
+				js(t, c02Map("C", cv, "D", "", "X", "alert(1)"))
+				cc(t, c02Map("C", cv, "D", "", "X", mkA+".org/x.js"))
+				cc(t, c02Map("C", cv, "D", "", "X", mkA))
+			}
+		}
+	}
+
 	// ------------------------------------------------------------ (7) structured random templates
 	nRand := 1500
 	if thorough {
@@ -587,5 +666,5 @@ func runC02(c *caseWriter) (string, bool, map[string]int) {
 		js(t, c02Str("javascript:alert(1)"))
 	}
 
-	return "templates run on the real engine: (0) canonical witnesses of the recorded findings; (1) directed-search seeds; (2) every (element, attribute) pair of the engine's policy tables (element-specific pairs; global attributes x 21 elements, x all listed elements in the thorough tier) and 38 attribute names outside them x {double, single, no quotes} x 7 static prefixes x {one action, two adjacent actions, action/static/action, range over a list, two calls of a helper template, if/else}, all leaves alphanumeric markers or markers decorated as origins; (3) element bodies of every listed element and of script/style/raw-text/RCDATA/foreign/unknown elements, 100 static code shapes (script strings and comments, style bodies, HTML comments, bogus comments, handlers, style, srcdoc, code-loading URL attributes with static prefixes incl. entity-encoded separators) x hostile leaves; (4) link rel x 33 rel values (case, order, white space of every kind, entities, duplicates) x 5 origins; (5) helper templates reused after different static prefixes and context-opening helpers called twice (D4, D1 shapes); (6) javascript: in case foldings (all 1024 in the thorough tier), with TAB/LF/CR, leading spaces/controls, entity spellings, non-ASCII runes that lower-case to ASCII, invalid UTF-8: as one value on 21 attribute sites and split at EVERY position across two adjacent actions, across loop iterations, across two calls of a helper template, byte per iteration, with a static middle piece, after validated and after invalid static prefixes, scheme + :// patterns, srcset candidates assembled from pieces; (7) structured random multi-action URL attribute values with if/with and static separators; (8) malformed UTF-8 data and tag soup around the action. non-trivial = the template was accepted and the output has a URL-valued attribute (jsurl) or a marker reached the output (codectx)", false, extra
+	return "templates run on the real engine: (0) canonical witnesses of the recorded findings; (1) directed-search seeds; (2) every (element, attribute) pair of the engine's policy tables (element-specific pairs; global attributes x 21 elements, x all listed elements in the thorough tier) and 38 attribute names outside them x {double, single, no quotes} x 7 static prefixes x {one action, two adjacent actions, action/static/action, range over a list, two calls of a helper template, if/else}, all leaves alphanumeric markers or markers decorated as origins; (3) element bodies of every listed element and of script/style/raw-text/RCDATA/foreign/unknown elements, 100 static code shapes (script strings and comments, style bodies, HTML comments, bogus comments, handlers, style, srcdoc, code-loading URL attributes with static prefixes incl. entity-encoded separators) x hostile leaves; (4) link rel x 33 rel values (case, order, white space of every kind, entities, duplicates) x 5 origins; (5) helper templates reused after different static prefixes and context-opening helpers called twice (D4, D1 shapes); (6) javascript: in case foldings (all 1024 in the thorough tier), with TAB/LF/CR, leading spaces/controls, entity spellings, non-ASCII runes that lower-case to ASCII, invalid UTF-8: as one value on 21 attribute sites and split at EVERY position across two adjacent actions, across loop iterations, across two calls of a helper template, byte per iteration, with a static middle piece, after validated and after invalid static prefixes, scheme + :// patterns, srcset candidates assembled from pieces; (6b) attribute and element names split over several text nodes by comments / empty control structures (23 name pairs x 6 separators x 7 elements x 3 quotings), conditional element and attribute names followed by further (empty) conditionals and nested conditionals (25 shapes x 4 truth assignments), conditional static URL prefixes with the scheme on the else side (19 prefixes x 7 sites); (7) structured random multi-action URL attribute values with if/with and static separators; (8) malformed UTF-8 data and tag soup around the action. non-trivial = the template was accepted and the output has a URL-valued attribute (jsurl) or a marker reached the output (codectx)", false, extra
 }
